@@ -1,16 +1,25 @@
 ------------------------------ MODULE Generator ------------------------------
 (* Contract of rten_generate::Generator as seen by the model it drives (C32). *)
 (*                                                                            *)
-(* A history is a sequence of calls  with_prompt(p) (first call only: it      *)
-(* consumes the builder), append_prompt(p), next, process_prompt,             *)
-(* clear_prompt.  The generator owns a list of *pending* tokens (prompt()).   *)
+(* A history is any sequence of the public calls that touch the token         *)
+(* history, the pending input or the KV cache:  with_prompt(p) (builder style *)
+(* `g = g.with_prompt(p)`, callable at any time: it *sets* the pending list,  *)
+(* dropping what was pending), append_prompt(p), clear_prompt, process_prompt,*)
+(* next.  (with_constant_input / with_varying_input / with_sampler /          *)
+(* with_logits_filter only configure what accompanies a run; they are         *)
+(* exercised as harness variants, not as actions.)                            *)
+(* The generator owns a list of *pending* tokens (prompt()).                  *)
 (* A run of the model (next / process_prompt) submits the pending tokens:     *)
 (*   - model with KV cache: the pending tokens only, at the next contiguous   *)
 (*     positions; afterwards nothing is pending (but the token next produced);*)
 (*   - model without KV cache: the model is stateless, so the whole pending   *)
 (*     list (which then is the whole conversation) at positions 0..n-1; the   *)
 (*     list stays pending.                                                    *)
-(* The KV cache handed to the model is the one the model returned last.       *)
+(* The KV cache handed to the model is the one the model returned last, and   *)
+(* the next position is the number of tokens that cache holds (what           *)
+(* kv_cache_len() reports) -- NOT the number of tokens in prev_tokens(): a    *)
+(* sampled token that is dropped by clear_prompt / with_prompt before it was  *)
+(* fed is part of prev_tokens() but not of the cache.                         *)
 (* prev (prev_tokens()) is the sequence of token instances in the order in    *)
 (* which they were first submitted to, or produced by, the model.             *)
 (*                                                                            *)
@@ -20,7 +29,7 @@
 EXTENDS Naturals, Integers, Sequences, FiniteSets
 
 CONSTANTS MaxOps,       \* bound on the number of calls in a history
-          MaxPrompt,    \* prompts have 0..MaxPrompt tokens
+          PromptLens,   \* the lengths prompts may have
           KVModes,      \* subset of BOOLEAN: model with / without KV-cache inputs
           SampledToks   \* token values the model may produce (environment's choice)
 
@@ -72,11 +81,14 @@ Live == ~done /\ Len(hist) < MaxOps
 Log(op, p) == hist' = Append(hist, [op |-> op, toks |-> p])
 
 \* ------------------------------------------------------------------ actions
+\* with_prompt "sets the ... prompt": whatever was pending (a sampled token not
+\* yet fed, appended prompts) is dropped, exactly as by clear_prompt
 WithPrompt(p) ==
-  /\ Live /\ hist = <<>>
+  /\ Live
   /\ pending' = Entries(p, nuid) /\ nuid' = nuid + Len(p)
+  /\ cleared' = cleared \cup UidSet(pending)
   /\ Log("with_prompt", p)
-  /\ UNCHANGED <<kv, pos, ver, prev, runs, cleared, done>>
+  /\ UNCHANGED <<kv, pos, ver, prev, runs, done>>
 
 AppendPrompt(p) ==
   /\ Live
@@ -115,12 +127,15 @@ NextEmpty ==
   /\ Live /\ pending = <<>> /\ done' = TRUE /\ Log("next", <<>>)
   /\ UNCHANGED <<kv, pending, pos, ver, prev, runs, nuid, cleared>>
 
-Step == \/ \E len \in 0..MaxPrompt : WithPrompt(FreshToks(nuid, len))
-        \/ \E len \in 0..MaxPrompt : AppendPrompt(FreshToks(nuid, len))
+Step == \/ \E len \in PromptLens : WithPrompt(FreshToks(nuid, len))
+        \/ \E len \in PromptLens : AppendPrompt(FreshToks(nuid, len))
         \/ ClearPrompt \/ ProcessPrompt \/ NextEmpty
         \/ \E s \in SampledToks : Next(s)
 
 Spec == Init /\ [][Step]_gvars
+
+\* what kv_cache_len() must report: Some(tokens in the cache) / None (= -1)
+KvLen == IF kv THEN pos ELSE 0 - 1
 
 \* ------------------------------------------------- the property (invariants)
 RECURSIVE Events(_)
